@@ -322,7 +322,7 @@ def _o(fn, o):
         t = fn.blocks[o[1]]["term"]
         return "the result of %s (line %d)" % (t.get("callee_key") or t.get("callee") or "?", t["sp"]["line"])
     if o[0] == "agg":
-        return "a value built at line %d" % fn.blocks[o[1]]["stmts"][o[2]]["sp"]["line"]
+        return "a value built at line %d" % (fn.blocks[o[1]]["term"]["sp"]["line"] if o[2] == "ctor" else fn.blocks[o[1]]["stmts"][o[2]]["sp"]["line"])
     if o[0] == "arg":
         return "parameter %d (not tree-carrying or `&mut`)" % o[1]
     return o[0]
